@@ -1,0 +1,32 @@
+//go:build verif
+
+// Verification hooks for the json wire layer (check Wjson; compiled only with -tags verif).
+// Add-only; nothing here is referenced by the library itself.
+
+package codec
+
+import "math"
+
+// VerifWjsonNextValueBytes calls the driver's nextValueBytes (the skip scanner behind swallow,
+// codec.Raw and json.Unmarshaler) at the Decoder's current position and returns a copy of
+// the bytes it handed back. A panic raised by halt or by a bounds check is returned as err.
+func VerifWjsonNextValueBytes(d *Decoder) (bs []byte, err error) {
+	defer func() {
+		if r := recover(); r != nil {
+			if e, ok := r.(error); ok {
+				err = e
+			} else {
+				panic(r)
+			}
+		}
+	}()
+	v := d.decoderI.nextValueBytes()
+	bs = append([]byte{}, v...)
+	return
+}
+
+// VerifWjsonParseFloat64 is parseFloat64 (what jsonNakedNum and DecodeFloat64 call).
+func VerifWjsonParseFloat64(b []byte) (bits uint64, ok bool) {
+	f, err := parseFloat64(b)
+	return math.Float64bits(f), err == nil
+}
